@@ -34,105 +34,183 @@ text = st.text(_ALPHA, max_size=12).filter(lambda s: '\ufffe' not in s and '\uff
 ws = st.sampled_from([None, '', ' ', '\n  ', '\t'])
 TAGS = ['roChannel', 'roEdDur', 'roTrigger', 'macroIn', 'custom', 'x-y', 'objSlug', 'b', 'em', 'a.b']
 
+# ---------------------------------------------------------------------------
+# Fragment tables.  One Hypothesis draw costs ~50 us, and a rich running order
+# built primitive by primitive needs ~1000 of them; instead the *variety* lives in
+# fixed tables of prebuilt fragments (texts, generic subtrees, item / story shells,
+# timing blocks, paragraph runs) and Hypothesis picks table entries and decides
+# the combinatorial structure (counts, IDs, positions, references).  The tables
+# are built once, deterministically (fixed-seed PRNG at import: a static corpus,
+# not a per-case random source).
+import random as _random
 
-@st.composite
-def generic(draw, depth=2, tags=TAGS):
-    tag = draw(st.sampled_from(tags))
-    attrib = draw(st.dictionaries(st.sampled_from(['type', 'id', 'lang', 'x']), text, max_size=2))
+_R = _random.Random(20260926)
+TEXT_POOL = [None, '', ' ', 'plain', 'two words', '  padded  ', 'a&b', 'x<y>z', '"quoted"', "it's",
+             'é中文', 'line1\nline2', '\ttab', ']]>', '&amp;', '<tag>', '0', 'None', '(b)', 'ünï',
+             ' sep', 'emoji \U0001F600', 'a' * 40, '--', '<!-- c -->', '<?pi?>', ' \n ']
+ATTR_NAMES = ['type', 'id', 'lang', 'x']
+
+
+def _rand_text():
+    return _R.choice(TEXT_POOL)
+
+
+def _rand_generic(depth):
+    attrib = {}
+    for _ in range(_R.choice([0, 0, 1, 2])):
+        attrib[_R.choice(ATTR_NAMES)] = _rand_text() or ''
     kids = []
     if depth > 0:
-        kids = draw(st.lists(generic(depth=depth - 1), max_size=2))
-    e = E(tag, *kids, text=draw(st.none() | text), attrib=attrib)
-    for k in kids:
-        k.tail = draw(st.none() | text)
-    return e
+        for _ in range(_R.choice([0, 1, 1, 2])):
+            kids.append(_rand_generic(depth - 1))
+    kids = [(k[0], k[1], k[2], k[3], _R.choice([None, None, ' ', 'tail', '\n  ', 't&t'])) for k in kids]
+    return (_R.choice(TAGS), attrib, _rand_text(), kids, None)
+
+
+GENERIC_SPECS = {d: [_rand_generic(d) for _ in range(24)] for d in (0, 1, 2)}
+
+
+def generic(depth=2, tags=None):
+    """A generic subtree: table entry (fresh Element each time)."""
+    return st.sampled_from(GENERIC_SPECS[min(depth, 2)]).map(B.from_spec)
 
 
 PARAS = [None, '', ' ', 'Plain text', '  padded  ', '(note)', '<cue>', '(half', 'half)',
-         '<half', ' (padded note) ', '()', '<>', '(', 'é中 text', 'a (b) c', '\n', 'x\ny']
+         '<half', ' (padded note) ', '()', '<>', '(', 'é中 text', 'a (b) c', '\n', 'x\ny',
+         ')(', '><', '(a)(b)', '<a> b <c>', ' ( spaced ) ', 'ends with )', '( starts']
+PARA_RUNS = [[]] * 6 + [[p] for p in PARAS] + [[_R.choice(PARAS), _R.choice(PARAS)] for _ in range(20)]
 
 
-@st.composite
-def paragraph(draw):
-    return P(draw(st.sampled_from(PARAS) | text))
+def paragraph():
+    return st.sampled_from(PARAS).map(P)
 
 
-DUR = st.sampled_from(['0', '1', '2', '3', '5', '10', '0.25', '0.5', '1.75', '12.5', '100', '59.04'])
-TIMES = st.sampled_from(['2020-01-01T12:30:00', '2021-06-30T23:59:59', '1999-12-31T00:00:01',
-                         '2020-02-29T06:00:00.250000'])
+def para_run():
+    return st.sampled_from(PARA_RUNS).map(lambda run: [P(t) for t in run])
 
 
-@st.composite
-def timing(draw, mode='any'):
-    """mode 'timed' -> always yields a duration; 'none' -> None; 'any' -> either."""
-    if mode == 'none':
-        return None
-    shape = draw(st.sampled_from(['dur', 'tt+mt', 'tt', 'mt', 'dur+tt+mt'] +
-                                 ([] if mode == 'timed' else ['nopayload', 'empty', 'absent'])))
+DURS = ['0', '1', '2', '3', '5', '10', '0.25', '0.5', '1.75', '12.5', '100', '59.04']
+DUR = st.sampled_from(DURS)
+TIME_TEXTS = ['2020-01-01T12:30:00', '2021-06-30T23:59:59', '1999-12-31T00:00:01',
+              '2020-02-29T06:00:00.250000']
+TIMES = st.sampled_from(TIME_TEXTS)
+
+
+def _timing_variants():
+    timed, untimed = [], [('absent', None), ('nopayload', {}), ('empty', {})]
+    for shape in ['dur', 'tt+mt', 'tt', 'mt', 'dur+tt+mt']:
+        for _ in range(8):
+            f = {}
+            if shape in ('dur', 'dur+tt+mt'):
+                f['StoryDuration'] = _R.choice(DURS)
+            if shape in ('tt+mt', 'tt', 'dur+tt+mt'):
+                f['TextTime'] = _R.choice(DURS)
+            if shape in ('tt+mt', 'mt', 'dur+tt+mt'):
+                f['MediaTime'] = _R.choice(DURS)
+            if _R.randrange(5) == 0:
+                f['StoryStarted'] = _R.choice(TIME_TEXTS)
+            if _R.randrange(5) == 0:
+                f['StoryEnded'] = _R.choice(TIME_TEXTS)
+            items = list(f.items())
+            _R.shuffle(items)
+            timed.append((shape, dict(items)))
+    return timed, untimed
+
+
+TIMED, UNTIMED = _timing_variants()
+
+
+def _mk_timing(v):
+    shape, f = v
     if shape == 'absent':
         return None
     if shape == 'nopayload':
         return B.timing_block({}, payload=False)
-    f = {}
-    if shape in ('dur', 'dur+tt+mt'):
-        f['StoryDuration'] = draw(DUR)
-    if shape in ('tt+mt', 'tt', 'dur+tt+mt'):
-        f['TextTime'] = draw(DUR)
-    if shape in ('tt+mt', 'mt', 'dur+tt+mt'):
-        f['MediaTime'] = draw(DUR)
-    if draw(st.integers(0, 5)) == 0:
-        f['StoryStarted'] = draw(TIMES)
-    if draw(st.integers(0, 5)) == 0:
-        f['StoryEnded'] = draw(TIMES)
-    items = list(f.items())
-    if draw(st.booleans()):
-        items.reverse()
-    return B.timing_block(dict(items))
+    return B.timing_block(f)
 
 
-@st.composite
-def item(draw, iid, rich=True, tag='item'):
-    if not rich:
-        it = B.mk_item(iid, slug=f'slug {iid}')
-    else:
-        note = draw(st.none() | st.tuples(st.sampled_from(['note', 'nested', 'other', 'empty']),
-                                          st.sampled_from(['a note', '', 'n&n'])))
-        it = B.mk_item(
-            iid, slug=draw(st.none() | text), obj_id=draw(st.none() | st.just('OBJ1')),
-            mos_id=draw(st.none() | st.just('mos.id')), obj_type=draw(st.none() | st.just('VIDEO')),
-            note=note, extras=draw(st.lists(generic(depth=1), max_size=1)),
-            id_first=draw(st.integers(0, 4)) > 0)
-        if draw(st.integers(0, 3)) == 0:
-            it.attrib['x'] = draw(text)
+def timing(mode='any'):
+    """mode 'timed' -> always yields a duration; 'none' -> None; 'any' -> either."""
+    if mode == 'none':
+        return st.none()
+    pool = TIMED if mode == 'timed' else TIMED + UNTIMED * 4
+    return st.sampled_from(pool).map(_mk_timing)
+
+
+def _item_variants():
+    out = [dict(slug='slug')]
+    for _ in range(40):
+        out.append(dict(
+            slug=_R.choice([None, 'slug', _rand_text()]), obj_id=_R.choice([None, 'OBJ1']),
+            mos_id=_R.choice([None, 'mos.id']), obj_type=_R.choice([None, 'VIDEO']),
+            note=_R.choice([None, None, ('note', 'a note'), ('note', ''), ('nested', 'n&n'),
+                            ('other', 'cue'), ('empty', '')]),
+            extras=[_R.choice(GENERIC_SPECS[1])] if _R.randrange(3) == 0 else [],
+            id_first=_R.randrange(5) > 0, attrib=_R.choice([None, None, None, {'x': 'a"b'}])))
+    return out
+
+
+ITEM_VARIANTS = _item_variants()
+
+
+def _mk_item(iid, v, tag='item'):
+    it = B.mk_item(iid, slug=v.get('slug'), obj_id=v.get('obj_id'), mos_id=v.get('mos_id'),
+                   obj_type=v.get('obj_type'), note=v.get('note'),
+                   extras=[B.from_spec(x) for x in v.get('extras', [])],
+                   id_first=v.get('id_first', True))
+    if v.get('attrib'):
+        it.attrib.update(v['attrib'])
     it.tag = tag
     return it
 
 
+def item(iid, rich=True, tag='item'):
+    if not rich:
+        return st.just(None).map(lambda _: _mk_item(iid, {'slug': f'slug {iid}'}, tag))
+    return st.sampled_from(ITEM_VARIANTS).map(lambda v: _mk_item(iid, v, tag))
+
+
+def _shell_variants():
+    out = [dict(slug='slug')]
+    for _ in range(30):
+        out.append(dict(
+            slug=_R.choice([None, 'slug', _rand_text()]), num=_R.choice([None, '7']),
+            extras=[_R.choice(GENERIC_SPECS[1])] if _R.randrange(3) == 0 else [],
+            id_pos=_R.choice([0, 0, 0, 1, 2, 3]), attrib=_R.choice([None, None, {'a': 'v<'}]),
+            tails=_R.choice([None, None, ' ', '\n  ', '\t']),
+            odd=_R.choice([None, None, None] + GENERIC_SPECS[1][:6])))
+    return out
+
+
+SHELL_VARIANTS = _shell_variants()
+
+
 @st.composite
 def story(draw, sid, iids, rich=True, timing_mode='any', for_send=False):
-    """A <story> element with the given item IDs interleaved with paragraphs."""
+    """A <story> element with the given item IDs interleaved with paragraphs.
+    -> (element, body children)"""
     body = []
     item_tag = 'storyItem' if for_send else 'item'
     for iid in iids:
         if rich:
-            body += draw(st.lists(paragraph(), max_size=2))
+            body += draw(para_run())
         body.append(draw(item(iid, rich=rich, tag=item_tag)))
-    if rich:
-        body += draw(st.lists(paragraph(), max_size=2))
-        if draw(st.integers(0, 3)) == 0:
-            body.insert(draw(st.integers(0, len(body))), draw(generic(depth=1)))
     tm = draw(timing(timing_mode))
     if not rich:
         return B.mk_story(sid, slug=f'slug {sid}', timing=tm, body=body), body
-    s = B.mk_story(
-        sid, slug=draw(st.none() | text), num=draw(st.none() | st.just('7')), timing=tm, body=body,
-        extras_before=draw(st.lists(generic(depth=1), max_size=1)),
-        id_pos=0 if draw(st.integers(0, 3)) else draw(st.integers(0, 3)))
-    if draw(st.integers(0, 3)) == 0:
-        s.attrib['a'] = draw(text)
-    for c in s:
-        if draw(st.integers(0, 2)) == 0:
-            c.tail = draw(ws)
+    body += draw(para_run())
+    v = draw(st.sampled_from(SHELL_VARIANTS))
+    if v.get('odd') is not None:
+        body.insert(len(body) // 2, B.from_spec(v['odd']))
+    s = B.mk_story(sid, slug=v.get('slug'), num=v.get('num'), timing=tm, body=body,
+                   extras_before=[B.from_spec(x) for x in v.get('extras', [])],
+                   id_pos=v.get('id_pos', 0))
+    if v.get('attrib'):
+        s.attrib.update(v['attrib'])
+    if v.get('tails') is not None:
+        for i, c in enumerate(s):
+            if i % 2 == 0:
+                c.tail = v['tails']
     return s, body
 
 
@@ -150,7 +228,7 @@ def ro_metadata(draw, n_md):
         if draw(st.booleans()):
             md = E('mosExternalMetadata', T('mosScope', 'PLAYLIST'),
                    T('mosSchema', f'http://schema/{i}'),
-                   E('mosPayload', T('k', draw(text)), *draw(st.lists(generic(depth=1), max_size=1))))
+                   E('mosPayload', T('k', draw(st.sampled_from(TEXT_POOL))), draw(generic(depth=1))))
             out.append(md)
         else:
             g = draw(generic(depth=1))
@@ -170,6 +248,10 @@ def running_order(draw, min_stories=0, max_stories=6, max_items=4, rich=True,
     for sid in sids:
         iids = draw(distinct(pool_i, 0, max_items))
         stories.append(draw(story(sid, iids, rich=rich, timing_mode=timing_mode))[0])
+    if rich and stories and draw(st.integers(0, 3)) == 0:
+        # genuinely random XML-legal text and attribute value somewhere in the document
+        stories[draw(st.integers(0, len(stories) - 1))].append(
+            E('p', text=draw(text), attrib={'r': draw(text)}))
     n_md = draw(st.integers(0, 3)) if rich else draw(st.integers(0, 1))
     md = draw(ro_metadata(n_md))
     # interleave: every metadata child gets a slot among the stories
